@@ -21,7 +21,7 @@ type Reader struct {
 
 // ConnOf returns the Conn of endpoint "c" or "s".
 func (p *Pair) ConnOf(ep string) *dtls.Conn {
-	if ep == p.CName {
+	if ep == p.CName || ep == "c" {
 		return p.Client
 	}
 
